@@ -17,6 +17,7 @@ package raft
 import (
 	"sort"
 	"sync"
+	"sync/atomic"
 	"time"
 )
 
@@ -37,6 +38,11 @@ type leader struct {
 	// holds running replications, key is addr
 	repls map[uint64]*replication
 	wg    sync.WaitGroup
+
+	// number of replication goroutines that have not finished yet; this
+	// includes replications already removed from repls that are winding down
+	// and may still be reading the log through their view
+	running int32
 
 	// to receive updates from replicators
 	replUpdateCh chan replUpdate
@@ -194,8 +200,10 @@ func (l *leader) addReplication(n Node) {
 	}
 
 	l.wg.Add(1)
+	atomic.AddInt32(&l.running, 1)
 	go func() {
 		defer l.wg.Done()
+		defer atomic.AddInt32(&l.running, -1)
 		repl.runLoop(req)
 		if trace {
 			println(repl, "repl.End")
@@ -413,6 +421,10 @@ func (l *leader) checkLogCompact() {
 		if repl.status.removeLTE < l.removeLTE {
 			return
 		}
+	}
+	if int(atomic.LoadInt32(&l.running)) > len(l.repls) {
+		// a removed replication has not finished yet and still holds an old view
+		return
 	}
 	if verif {
 		verifPoint("ldr.precompact", l.snaps.dir)
